@@ -57,10 +57,12 @@ Definition counted (cfg : netcfg) (final : bool) (cn : nrec) (ts : Z) : bool :=
   | _ => false
   end.
 
+(* the loop of ConsensusThreshold over the node list, given the excluded node *)
+Definition base_on (cfg : netcfg) (removing : option nrec) (nodes : list nrec) (ts : Z) (final : bool) : Z :=
+  Z.of_nat (length (filter (fun cn => not_removing removing cn && counted cfg final cn ts) nodes)).
+
 Definition consensus_base (cfg : netcfg) (all : list nrec) (ts : Z) (final : bool) : Z :=
-  let removing := removing_for cfg all ts in
-  Z.of_nat (length (filter (fun cn => not_removing removing cn && counted cfg final cn ts)
-                           (nodes_list all ts false))).
+  base_on cfg (removing_for cfg all ts) (nodes_list all ts false) ts final.
 
 Definition threshold_of_base (base : Z) : Z :=
   if base <? Consts.QMinNodes then invalid_threshold else base * 2 / 3 + 1.
@@ -70,16 +72,21 @@ Definition consensus_threshold (cfg : netcfg) (all : list nrec) (ts : Z) (final 
 
 (* consensusNodes.  [pledging] is the identity of the chain when the chain is
    pledging (it has no state yet), None otherwise. *)
-Definition ready_nodes (cfg : netcfg) (all : list nrec) (ts : Z) : list nrec :=
-  let removing := removing_for cfg all ts in
-  filter (fun cn => not_removing removing cn && consensus_ready cfg cn ts) (nodes_list all ts false).
+Definition ready_on (cfg : netcfg) (removing : option nrec) (nodes : list nrec) (ts : Z) : list nrec :=
+  filter (fun cn => not_removing removing cn && consensus_ready cfg cn ts) nodes.
 
-Definition consensus_nodes (cfg : netcfg) (all : list nrec) (pledging : option nrec) (round ts : Z) : list nrec :=
-  ready_nodes cfg all ts ++
+Definition ready_nodes (cfg : netcfg) (all : list nrec) (ts : Z) : list nrec :=
+  ready_on cfg (removing_for cfg all ts) (nodes_list all ts false) ts.
+
+Definition with_pledging (ready : list nrec) (pledging : option nrec) (round : Z) : list nrec :=
+  ready ++
   match pledging with
   | Some ci => if round =? 0 then [ci] else []
   | None => []
   end.
+
+Definition consensus_nodes (cfg : netcfg) (all : list nrec) (pledging : option nrec) (round ts : Z) : list nrec :=
+  with_pledging (ready_nodes cfg all ts) pledging round.
 
 Definition consensus_keys (cfg : netcfg) (all : list nrec) (pledging : option nrec) (round ts : Z) : list N :=
   map r_id (consensus_nodes cfg all pledging round ts).
